@@ -117,7 +117,7 @@ Apply1(op, x) ==
 Builtin1 == {"abs", "floor", "ceil", "sign"}
 Builtin2 == {"min", "max"}
 (* elementary functions have no exact value: uninterpreted, handled by the "elem" family only *)
-Elementary == {"sin", "cos", "tan", "asin", "acos", "atan", "sinh", "cosh", "tanh", "exp", "log", "log10", "sqrt"}
+Elementary == {"sin", "cos", "tan", "sinh", "cosh", "tanh", "exp", "log", "log10", "sqrt"}
 
 Map1(op, a) == IF IsErr(a) THEN a ELSE V(a.sh, [i \in DOMAIN a.d |-> Apply1(op, a.d[i])])
 (* element-wise with scalar broadcast; "*" of two non-scalars would be a matrix product: not in the families *)
